@@ -78,7 +78,10 @@ class FS(Env):
         self.add(open, self.open, "mysensors.persistence.open")
         for name in ("fsync", "rename", "remove", "access"):
             self.add(getattr(os, name), getattr(self, name), None)
+        self.add(os.replace, self.rename, None)
+        self.add(os.unlink, self.remove, None)
         self.add(os.path.isfile, self.isfile, None)
+        self.add(os.path.exists, self.isfile, None)
         self.add(os.path.realpath, lambda a, k: a[0], None)
         self.add(pickle.dump, self.dump, None)
         self.add(pickle.load, self.load, None)
@@ -216,11 +219,20 @@ class FS(Env):
 
         def wrap(impl):
             return lambda *a, **k: impl(list(a), k)
-        fake_os = types.SimpleNamespace(
-            fsync=wrap(self.fsync), rename=wrap(self.rename), remove=wrap(self.remove),
-            access=wrap(self.access), W_OK=os.W_OK, R_OK=os.R_OK,
-            path=types.SimpleNamespace(isfile=wrap(self.isfile), realpath=lambda p: p,
-                                       dirname=os.path.dirname, splitext=os.path.splitext))
+        class _Delegate:
+            """Modelled functions first, everything else from the real module."""
+
+            def __init__(self, real, **over):
+                self._real = real
+                self.__dict__.update(over)
+
+            def __getattr__(self, name):
+                return getattr(self._real, name)
+        fake_os = _Delegate(
+            os, fsync=wrap(self.fsync), rename=wrap(self.rename), replace=wrap(self.rename),
+            remove=wrap(self.remove), unlink=wrap(self.remove), access=wrap(self.access),
+            path=_Delegate(os.path, isfile=wrap(self.isfile), exists=wrap(self.isfile),
+                           realpath=lambda p: p))
         fake_pickle = types.SimpleNamespace(dump=wrap(self.dump), load=wrap(self.load),
                                             HIGHEST_PROTOCOL=pickle.HIGHEST_PROTOCOL,
                                             UnpicklingError=pickle.UnpicklingError)
